@@ -495,12 +495,17 @@ func run(raw json.RawMessage) driver.Result {
 	for ti, tg := range g.targets {
 		d := pat % 4
 		pat /= 4
+		pv, ps := genLeafFor(r, tg)
 		if d&1 != 0 {
-			v, s := genLeafFor(r, tg)
-			slots = append(slots, slot{slotPath(r, tg, false), v, s, ti, false})
+			slots = append(slots, slot{slotPath(r, tg, false), pv, ps, ti, false})
 		}
 		if d&2 != 0 {
 			v, s := genLeafFor(r, tg)
+			// both names carrying the SAME value (slices, sets and maps included) is
+			// an error like any other pair (seeded C14-q)
+			if d == 3 && r.Chance(1, 2) {
+				v, s = pv, ps
+			}
 			slots = append(slots, slot{slotPath(r, tg, true), v, s, ti, true})
 		}
 		if d == 3 {
